@@ -77,3 +77,19 @@ Theorem C13_via_enqueue : forall udigit uspace c origs evs,
   (forall q e p ok, In (TEnqueue q e (Some p) ok) (trace st) -> q = c_sepq c).
 Proof. intros udigit uspace c origs evs. exact (via_enqueue udigit uspace c origs evs). Qed.
 Print Assumptions C13_via_enqueue.
+
+(* The relay may report per-recipient results as a mapping in any key order
+   (Relay.attempt promises none).  Permuting the mapping does not change
+   whether _handle_partial_relay raises, and the groups built from the
+   transient and from the permanent failures are the same up to the order of
+   the groups and of the recipients inside a group: same number of groups,
+   every group has a counterpart with an equal reply and the same recipients. *)
+Theorem C13_groups_invariant_under_mapping_order : forall rcpts items items' dl tf pf,
+  Permutation items items' ->
+  classify rcpts items [] [] [] = Some (dl, tf, pf) ->
+  exists dl' tf' pf',
+    classify rcpts items' [] [] [] = Some (dl', tf', pf') /\
+    groups_equiv (split_by_reply tf) (split_by_reply tf') /\
+    groups_equiv (split_by_reply pf) (split_by_reply pf').
+Proof. exact groups_invariant_under_mapping_order. Qed.
+Print Assumptions C13_groups_invariant_under_mapping_order.
